@@ -49,6 +49,8 @@ def case_strategy(draw):
     case["ra"] = draw(st.lists(gen.floats(10.0, 30.0), min_size=n, max_size=n))
     case["dec"] = draw(st.lists(gen.floats(-10.0, 10.0), min_size=n, max_size=n))
     case["row_group"] = draw(st.sampled_from([1, 2, 5, max(1, c // 2), c, c + 3, n])) if source == "parquet" else None
+    # storage layout of an HDF5 input: contiguous, or chunked with a storage chunk smaller / larger than the read chunk
+    case["h5chunks"] = draw(st.sampled_from([None, None, 1, max(1, c // 2), c + 1, 3 * c + 1, n])) if source == "hdf5" else None
     if mode == "ids":
         case["pid"] = draw(st.lists(st.integers(0, 2), min_size=n, max_size=n))
     # patch_num next to centres or a patch-index column is documented to be ignored (no extra pass)
@@ -206,7 +208,11 @@ def run_case(case):
                     Catalog.from_random(tmp / "c", g, n, **kw)
                 else:
                     table = {"ra": case["ra"], "dec": case["dec"], "w": None, "z": None, "pid": case.get("pid"), "dtypes": {}}
-                    path = sources.write_source(case["source"], table, tmp, row_group_size=case["row_group"])
+                    if case.get("h5chunks"):
+                        path, _, _ = sources.write_source("hdf5", table, tmp, layout={"chunks": case["h5chunks"], **({"compression": "gzip"} if case["h5chunks"] % 2 else {})})
+                        ck.cls("hdf5-chunked-layout")
+                    else:
+                        path = sources.write_source(case["source"], table, tmp, row_group_size=case["row_group"])
                     Catalog.from_file(tmp / "c", path, **kw)
             finally:
                 if fake_ctx:
